@@ -38,6 +38,23 @@ theorem form_extreme_keeps_parts (t : Res C) :
   have h : del (add comb (del t)) = del t := del_add comb _ (noExtreme_del t) (canonical_del t)
   exact ⟨h, fun hn hc => by rw [form, h, del_of_noExtreme t hn hc]⟩
 
+/-- ★ the nested envelope is `extrema` applied recursively: after `form_extreme` the `'extreme'` entry of
+a group holds `_calc_extreme` over its members in key order, where a member that is a base event
+contributes its own categories (`use_ext = False`) and a member that is a group contributes ITS
+envelope, formed the same way (`use_ext = True`) — `envOf`, which never mentions stale entries or
+the order in which the tree is rebuilt. -/
+theorem nested_envelope_is_recursive_extrema (t : Res C) :
+    extOf (form comb t) = envOf comb (del t) ∧
+    ∀ kids, del t = .group kids →
+      form comb t = .group (addKids comb kids ++ [("extreme", mkBase (envOf comb (del t)).1)]) := by
+  refine ⟨extOf_add comb _ (noExtreme_del t), fun kids hk => ?_⟩
+  have hn : noExtremeKids kids = true := by
+    have := noExtreme_del t
+    rw [hk] at this
+    simpa [noExtreme] using this
+  rw [form, hk]
+  simp only [add, envOf, calcExtreme, map_extOf_addKids comb kids hn]
+
 /-- ★ `delete_extreme` removes every `'extreme'` entry at every level, is idempotent, and leaves a
 structure without such entries alone. -/
 theorem delete_extreme_spec (t : Res C) :
@@ -82,23 +99,24 @@ theorem form_extreme_flat_is_envelope (d : Nat) (c : String) (hc : c ≠ "extrem
       (by simpa [canonical] using canonicalKids_flat c (p :: ps))
   rw [form, hdel]
   simp only [add, addKids_flat]
-  have hcalc := calc_flat_aux (combRow (α := α) (X := X) d) c (p :: ps) 0 none
-  have hfold := foldl_zipIdx_ignore
-    (fun (cur : Option (Cur α X String)) (q : String × Cur α X String) => some (upd2 cur (relabel q)))
-    (p :: ps) 0 none
-  have hrun : ((p :: ps).zipIdx 0).foldl
-      (fun cur q => some (combRow d q.1.1 false q.2 cur q.1.2)) none = some r := by
-    have : (fun (cur : Option (Cur α X String)) (q : (String × Cur α X String) × Nat) =>
-        some (combRow d q.1.1 false q.2 cur q.1.2))
-        = fun cur q => some (upd2 cur (relabel q.1)) := rfl
-    rw [this, hfold]
-    simpa [run2, List.foldl_map] using hr
   have hce : calcExtreme (combRow d) (flatKids c (p :: ps)) = [(c, r)] := by
-    unfold calcExtreme
-    rw [List.zipIdx] at *
-    have := hcalc
-    simp only [toAssoc] at this
-    rw [this, hrun]
+    rw [calcExtreme, extOf_flatKids, calcCore_single]
+    have : (fun (cur : Option (Cur α X String)) (q : (String × Cur α X String × Bool) × Nat) =>
+        some (combRow d q.1.1 q.1.2.2 q.2 cur q.1.2.1))
+        = fun cur q => some (combRow d q.1.1 q.1.2.2 0 cur q.1.2.1) := rfl
+    rw [this]
+    have h2 := foldl_zipIdx_ignore
+      (fun (cur : Option (Cur α X String)) (q : String × Cur α X String × Bool) =>
+        some (combRow d q.1 q.2.2 0 cur q.2.1))
+      ((p :: ps).map fun q => (q.1, q.2, false)) 0 none
+    rw [h2, List.foldl_map]
+    have : (p :: ps).foldl (fun cur q => some (combRow d q.1 false 0 cur q.2)) none = some r := by
+      have : (fun (cur : Option (Cur α X String)) (q : String × Cur α X String) =>
+          some (combRow d q.1 false 0 cur q.2)) = fun cur q => some (upd2 cur (relabel q)) := rfl
+      rw [this]
+      simpa [run2, List.foldl_map] using hr
+    rw [this]
+    rfl
   rw [hce]
   rfl
 
